@@ -447,16 +447,23 @@ namespace
                         // *needed* (greedy removal of prefix events while the difference stays)
                         std::vector<int> minimal = hist;
                         probing = true;
-                        for (std::size_t k = 0; k + 1 < minimal.size();)
+                        for (bool changed = true; changed;)
                         {
-                            std::vector<int> cand = minimal;
-                            cand.erase(cand.begin() + static_cast<std::ptrdiff_t>(k));
-                            probe_result.clear();
-                            judge(cand);
-                            if (!probe_result.empty())
-                                minimal = cand;
-                            else
-                                ++k;
+                            changed = false;
+                            for (std::size_t k = 0; k + 1 < minimal.size();)
+                            {
+                                std::vector<int> cand = minimal;
+                                cand.erase(cand.begin() + static_cast<std::ptrdiff_t>(k));
+                                probe_result.clear();
+                                judge(cand);
+                                if (!probe_result.empty())
+                                {
+                                    minimal = cand;
+                                    changed = true;
+                                }
+                                else
+                                    ++k;
+                            }
                         }
                         probing = false;
                         std::string cls = classify(minimal);
@@ -1045,6 +1052,25 @@ namespace
         const std::vector<double>* rounds[2] = { &c.fa, &c.fb };
         for (int r = 0; r < 2; ++r)
         {
+            if (r == 1)
+            {
+                // the second update also changes mask and base levels (on the main graph and
+                // on the prefix graphs alike): nothing of the first round may survive
+                std::size_t nn = c.fa.size();
+                std::vector<int> m2(nn, 0);
+                m2[nn / 3] = 1;
+                if (c.has_mask)
+                    m2[nn / 2] = 0;
+                std::vector<std::size_t> b2 = { 0, nn - 1 };
+                auto reconf = [&](auto& fg)
+                {
+                    fg.set_base_levels(b2);
+                    fg.set_mask(make_mask(grid, m2));
+                };
+                reconf(*main.fg);
+                for (auto& pf : prefs)
+                    reconf(*pf.built->fg);
+            }
             auto arr = make_field(grid, *rounds[r]);
             main.fg->update_routes(arr);
             ++ctx.rep.ops;
